@@ -158,7 +158,7 @@ def check(ctx, run):
                 stack.pop()
                 continue
             where = (stack[-1] if stack else fit.qualname).rsplit(".", 1)[-1]
-            if k == "obj_setattr" and isinstance(e.get("obj"), Obj) and e["obj"].name == "hedger" and e["attr"] not in ("training",) and not e["attr"].startswith("__"):
+            if k == "obj_setattr" and isinstance(e.get("obj"), Obj) and e["obj"].name == "hedger" and e["attr"].startswith("_") and not e["attr"].startswith("__"):
                 # anything fit() leaves on the hedger (a kept optimiser, a cached binding) makes the next fit() differ from a fresh reference loop
                 problems.append(f"{where}: stores hedger.{e['attr']} (state carried over to the next call)")
                 continue
@@ -215,7 +215,7 @@ def check(ctx, run):
         problems.append("no separate treatment of lazy (uninitialised) parameters")
     for lazy, rs in lazy_paths.items():
         for r in rs:
-            kept = sorted({e["attr"] for e in r["events"] if e["kind"] == "obj_setattr" and e.get("obj") is hc and not e["attr"].startswith("__") and e["attr"] != "training"})
+            kept = sorted({e["attr"] for e in r["events"] if e["kind"] == "obj_setattr" and e.get("obj") is hc and e["attr"].startswith("_") and not e["attr"].startswith("__")})
             if kept:
                 problems.append(f"stores hedger.{', hedger.'.join(kept)}: the optimiser (its moments, its parameter list) is carried over to the next fit() instead of being constructed afresh")
             v = r["value"]
